@@ -29,6 +29,29 @@ containing %u are expanded with hostile user names: either the expansion is
 refused (IllegalUserName / ConfigParseError) or the value is the literal
 substitution and, normalised with POSIX and with Windows path rules, stays
 inside the directory named by the template.
+
+Mechanism keys.  A disagreement is named after the documented rule which,
+when broken in a copy of the reference model, reproduces asyncssh's answer
+(the models only classify, they are never the oracle):
+  raw_option_keeps_equals_separator   `ProxyCommand=cmd` / `RemoteCommand =
+      cmd` keep the `=` as part of the command
+  include_glob_not_in_sorted_order    files matched by an Include glob are
+      read in directory order, not in the sorted order of glob(3)
+  token_expansion_differs_with_include   percent tokens / ${ENV} are
+      expanded when an *included* file ends (with the host, port and user
+      known so far) and again at the end: %% collapses twice, %h/%p/%r are
+      stale, `%%x` becomes an "Invalid token expansion" error
+  match_final_reparse_discards_first_pass   the final pass starts from
+      scratch, so a `Match final` block placed before another block wins
+      over the value ssh keeps from its first pass
+  value_ending_in_equals_misparsed    `Key=value=` (e.g. SetEnv=FOO=) is
+      taken for the keyword `Key=value`
+  include_order_and_token_divergences_combined   only both together explain
+Anything else: resolution_differs_from_ssh / _with_include /
+_with_match_final, token_expansion_differs,
+relative_include_resolution_differs, documented_config_rejected,
+server_resolution_differs, documented_server_config_rejected,
+unsafe_username_substituted, username_substitution_undocumented_error.
 """
 
 import hashlib
@@ -945,11 +968,6 @@ def classify(gen, kind, name, a, path, target, features, fallback=None):
 
     if table[name] == 'raw' and isinstance(a, str) and a.startswith('='):
         return 'raw_option_keeps_equals_separator'
-    for text in features['texts'].values():
-        for line in text.splitlines():
-            m = _EQ_TAIL.match(line)
-            if m and m.group(1).lower() == name.lower():
-                return 'value_ending_in_equals_misparsed'
     if features['multi_glob'] and \
             val(Ref(gen, target, glob_order=_glob_order).resolve(path)) == a:
         return 'include_glob_not_in_sorted_order'
@@ -962,6 +980,11 @@ def classify(gen, kind, name, a, path, target, features, fallback=None):
         return 'include_order_and_token_divergences_combined' \
             if name in TOKEN_OPTS or name == 'AuthorizedKeysFile' else \
             'include_glob_not_in_sorted_order'
+    for text in features['texts'].values():
+        for line in text.splitlines():
+            m = _EQ_TAIL.match(line)
+            if m and m.group(1).lower() == name.lower():
+                return 'value_ending_in_equals_misparsed'
     if name in TOKEN_OPTS:
         return 'token_expansion_differs'
     if fallback:
